@@ -9,7 +9,9 @@
 (* (the gate it is parked in or the value returned) and the changes the    *)
 (* callback reported.  Each line is compared with LocalStep.               *)
 (* Lines of kind "stress": n free-running goroutines issuing the first Get *)
-(* of a new name on a router with a counting factory.                      *)
+(* of a new name on a router with a counting factory; "rmstress": n        *)
+(* free-running goroutines removing the same present name (equal outcomes  *)
+(* logged once with their count).                                          *)
 (***************************************************************************)
 EXTENDS Router
 
@@ -47,7 +49,18 @@ StressFails(ob) ==
           IF Len(ob.chg) # 1 THEN "stress:not-exactly-one-commit-reported" ELSE "stress:commit-report-wrong")
   \cup If(ob.faccalls >= 1 /\ ob.faccalls <= n, "stress:factory-calls")
 
-Fails(ob) == IF ob.kind = "stress" THEN StressFails(ob) ELSE RegFails(ob)
+\* n free-running goroutines Remove the same present name (client ob.c) at once: the map hands the client to
+\* exactly one of them and reports exactly the one transition
+RmStressFails(ob) ==
+  LET n == Len(ob.got) IN
+  If(Cardinality({ j \in 1..n : ob.got[j] = ob.c }) = 1 /\ \A j \in 1..n : ob.got[j] \in {0, ob.c},
+     "rmstress:not-exactly-one-Remove-returned-the-client")
+  \cup If(~ob.has, "rmstress:name-still-present")
+  \cup If(ob.chg = << Chg("dev/x", ob.c, 0, FALSE) >>,
+          IF \E j \in 1..Len(ob.chg) : ob.chg[j].old = 0 /\ ob.chg[j].new = 0 THEN "rmstress:reported-change-is-no-transition"
+          ELSE IF Len(ob.chg) # 1 THEN "rmstress:not-exactly-one-removal-reported" ELSE "rmstress:removal-report-wrong")
+
+Fails(ob) == CASE ob.kind = "stress" -> StressFails(ob) [] ob.kind = "rmstress" -> RmStressFails(ob) [] OTHER -> RegFails(ob)
 BadLines == { l \in 1..Len(Obs) : Fails(Obs[l]) # {} }
 TraceInit == st = 0
 TraceNext == UNCHANGED st
